@@ -5,57 +5,6 @@ import SlotVerif.Driver.SlotDrv
 namespace SV.Drv
 open SV SV.Parse
 
-partial def isTerm : Pat → Bool
-  | .enode _ cs => cs.all isTerm
-  | _ => false
-
-/-- Rust `str::split("==")` on a char list -/
-def splitEqEq (s : List Char) : List (List Char) :=
-  let rec go : List Char → List Char → List (List Char)
-    | [], cur => [cur.reverse]
-    | '=' :: '=' :: r, cur => cur.reverse :: go r []
-    | c :: r, cur => go r (c :: cur)
-  go s []
-
-def splitComma (s : List Char) : List (List Char) :=
-  let rec go : List Char → List Char → List (List Char)
-    | [], cur => [cur.reverse]
-    | ',' :: r, cur => cur.reverse :: go r []
-    | c :: r, cur => go r (c :: cur)
-  go s []
-
-def trimWs (s : List Char) : List Char :=
-  ((s.dropWhile isWs).reverse.dropWhile isWs).reverse
-
-/-- `MultiPattern::parse` (after fix): list of (var, node, child vars) -/
-def parseMulti (sig : Sig) (s : List Char) (t : Slot.Tab) :
-    Except PErr (List (String × Node × List String) × Slot.Tab) :=
-  let parts := (splitComma s).map trimWs |>.filter (fun x => !x.isEmpty)
-  parts.foldl (fun acc x =>
-    match acc with
-    | .error e => .error e
-    | .ok (out, t) =>
-      match splitEqEq x with
-      | [l, r] =>
-        match parsePat sig l t with
-        | .error e => .error e
-        | .ok (pl, t1) =>
-          match parsePat sig r t1 with
-          | .error e => .error e
-          | .ok (pr, t2) =>
-            match pl with
-            | .pvar v =>
-              match pr with
-              | .enode n cs =>
-                let vars := cs.filterMap fun | .pvar x => some x | _ => none
-                if vars.length = cs.length then .ok (out ++ [(v, n, vars)], t2) else .error .parseState
-              | _ => .error .parseState
-            | _ => .error .parseState
-      | _ => .error .tokenState) (.ok ([], t))
-
-def printMulti (sig : Sig) (t : Slot.Tab) (mp : List (String × Node × List String)) : String :=
-  ", ".intercalate (mp.map fun (v, n, cs) => "?" ++ v ++ " == " ++ printPat sig t (.enode n (cs.map .pvar)))
-
 def encStr (s : String) : String := encodeCps s.toList
 
 def parseRun (body : String) : String :=
